@@ -257,7 +257,7 @@ func UniverseAmt() *Universe {
 	root := b.Root()
 	b.At("g")
 	// zero-value output + big change + fee
-	tZ := b.Transfer("tZ", "A", []In{{Tx: root, Offset: 0}}, []Out{{To: "B", Amount: "0"}, {To: "C", Amount: "18446744073709551619"}, {To: "A", Amount: "990"}, {To: "$", Amount: "7"}})
+	tZ := b.Transfer("tZ", "A", []In{{Tx: root, Offset: 0}}, []Out{{To: "B", Amount: "0"}, {To: "C", Amount: "18446744073709551619"}, {To: "A", Amount: "990"}, {To: "$", Amount: "7"}, {To: "D", Raw: []byte{0}}, {To: "D", Raw: []byte{0, 0}}}) // zero also spelled 0x00 and 0x0000
 	// frozen outputs: until height 2, and forever; leading-zero amount bytes
 	tF := b.Transfer("tF", "B", []In{{Tx: root, Offset: 1}}, []Out{{To: "C", Amount: "100", Frozen: 2}, {To: "D", Amount: "50", Frozen: -1}, {To: "B", Raw: []byte{0, 5}}, {To: "B", Amount: "345"}})
 	b.Block("x1", "M")
@@ -278,6 +278,17 @@ func UniverseAmt() *Universe {
 	b.Raw("sUnbalanced", BuildTx(TxSpec{Initiator: "A", Ins: []In{{Tx: tZ, Offset: 2}}, Outs: []Out{{To: "B", Amount: "991"}}, Nonce: "sUnbalanced"}), true)
 	b.Raw("sA", BuildTx(TxSpec{Initiator: "A", Ins: []In{{Tx: tZ, Offset: 2}}, Outs: []Out{{To: "B", Amount: "980"}, {To: "$", Amount: "10"}}, Nonce: "sA"}), false)
 	b.Raw("sA2", BuildTx(TxSpec{Initiator: "A", Ins: []In{{Tx: tZ, Offset: 2}}, Outs: []Out{{To: "D", Amount: "990"}}, Nonce: "sA2"}), false)
+	// cited input amounts that are not the canonical bytes of the output's amount: zero bytes appended
+	// (another number) and prepended (the same number, another spelling); both must be refused
+	for _, v := range []struct {
+		name string
+		f    func(a []byte) []byte
+	}{{"sPadTrail", func(a []byte) []byte { return append(append([]byte{}, a...), 0) }}, {"sPadLead", func(a []byte) []byte { return append([]byte{0}, a...) }}} {
+		t := BuildTx(TxSpec{Initiator: "A", Ins: []In{{Tx: tZ, Offset: 2}}, Outs: []Out{{To: "B", Amount: "980"}, {To: "$", Amount: "10"}}, Nonce: v.name})
+		t.TxInputs[0].Amount = v.f(t.TxInputs[0].Amount)
+		SignTx(t, "A", nil)
+		b.Raw(v.name, t, true)
+	}
 	_ = tM
 	return b.Done()
 }
